@@ -455,7 +455,7 @@ def entries():
     L.append(E('mask_sift(mask_freqs=array)', 'sift',
                lambda d, v: (dict(X=lay(d['x'], 'n' if v == 'ref' else v), mask_freqs=np.array([.2, .1, .05]), mask_amp=np.array([1., 1., .5])), sift_opts()),
                lambda a, o: sift.mask_sift(a['X'], mask_freqs=a['mask_freqs'], mask_amp=a['mask_amp'], mask_amp_mode='ratio_sig',
-                                           ret_mask_freq=True, **o), ('n1',), ('n2',), tier='thorough'))
+                                           ret_mask_freq=True, **o), ('n1',), ('n2',)))
     L.append(E('ensemble_sift', 'sift', b_sig,
                seeded(lambda a, o: sift.ensemble_sift(a['X'], nensembles=2, max_imfs=2, nprocesses=1, **o)), SIFT_ACCEPT, SIFT_REJECT))
     L.append(E('complete_ensemble_sift', 'sift', b_sig,
